@@ -293,6 +293,17 @@ class C18(Property):
                     dyadic = False
                 else:
                     target = 'neutral'
+        if target == 'neutral' and k <= 7 and rng.random() < 0.45:
+            # NON-neutral by a trace ion: relative imbalance |sum b z| / sum b z^2 log-uniform over 1e-13 .. 1e-2
+            tot = sum(b * z * z for b, z in zip(bs, zs))
+            zt = rng.choice([-3, -2, -1, 1, 2, 3])
+            ratio = Fraction(self._dec(rng, 1e-13, 1e-2, 3))
+            pos = rng.randint(0, len(bs))
+            bs.insert(pos, ratio * tot / abs(zt))
+            zs.insert(pos, zt)
+            k += 1
+            target = 'trace'
+            dyadic = decimal = False
         c['target'] = target or 'free'
         c['dyadic'] = bool(dyadic)
         if form in ('dict', 'units-dict'):
@@ -1165,14 +1176,20 @@ class C18(Property):
         net = sum(b * z for b, z in zip(bs, zs))
         tot = 2 * want
         if c['warn']:
-            if exactish or abs(net) > Fraction(1, 10 ** 12) * tot:
-                if net == 0 and w:
-                    return 'neutral composition (net charge exactly 0) drew the warning'
+            # exact Fractions of the values actually passed.  Float evaluation moves the computed net charge by at most ~1e-15*tot
+            # (<= 9 terms), so outside a narrow band around the documented threshold 1e-14*tot the outcome is determined:
+            #   |net| >= 3e-14*tot (1.1e-14*tot when the evaluation is exact)  =>  warning;   net == 0 exactly  =>  no warning
+            if (exactish or abs(net) > Fraction(1, 10 ** 12) * tot) and net == 0 and w:
+                return 'neutral composition (net charge exactly 0) drew the warning'
             if c.get('paper_neutral') and w:
                 return ('composition that is neutral in decimal arithmetic drew the warning: float net charge %.3g, total %.3g (the tolerance '
                         'tot*1e-14 must absorb the rounding of <= 8 products and sums)' % (float(net), float(tot)))
-                if abs(net) >= Fraction(11, 10 ** 15) * tot and net != 0 and not w and all(b >= 0 for b in bs):
-                    return 'composition with net charge %s (tot %s) drew no warning' % (float(net), float(tot))
+            must = Fraction(11, 10 ** 15) if exactish else Fraction(3, 10 ** 14)
+            if net != 0 and abs(net) >= must * tot and not w and all(b >= 0 for b in bs):
+                return ('composition with net charge %.6g = %.3g * sum(b z^2) (documented threshold 1e-14) drew no warning'
+                        % (float(net), float(abs(net) / tot)))
+            if exactish and net != 0 and abs(net) <= Fraction(9, 10 ** 15) * tot and w and all(b >= 0 for b in bs):
+                return 'net charge %.3g * sum(b z^2), below the documented threshold 1e-14, drew the warning' % float(abs(net) / tot)
         elif w:
             return 'warning issued although warn=False'
         # invariances, on the real code
